@@ -10,6 +10,18 @@ CLAIMED = {
    technique="bounded exhaustive enumeration of closed UPLC terms, each executed on the real evaluator and on an independent reference CEK machine",
    text="Every closed term up to a size bound (full alphabet: size<=5 quick / <=6 thorough; small alphabet two sizes deeper) under each of the five semantics variants is evaluated by the real machine and by a reference CEK machine written from the specification; results (discharged value or failure) must coincide. Complete within the bound, silent beyond it.",
    note="trusted: the reference machine vcore::cek_ref (own term type, persistent environments, spec-style discharge) and the spec-transcribed builtin signature table; builtin denotations beyond the 8 in the alphabet are C04's job"),
+ "C10": dict(engine="h_uplc", design_ref="DESIGN.md §4 C10",
+   technique="bounded exhaustive enumeration of open/ill-typed terms x budgets x variants and of every builtin x every tuple of value kinds on the real evaluator; oracle: terminates with value or error",
+   text="All terms (free indices, index 0, ill-typed) up to a size bound x 4 budgets x 5 variants, and every builtin applied to the full cartesian product of 27 value kinds (integer boundaries, wrong types, non-constants) x 5 variants, run on the real machine under catch_unwind with overflow checks on; any panic is a violation; rendering the returned error is part of the case.",
+   note="evaluator half only so far (compiler half is built with the h_lang engine); stack exhaustion on very deep terms is outside the size bound and not claimed"),
+ "C11": dict(engine="h_uplc", design_ref="DESIGN.md §4 C11",
+   technique="bounded exhaustive enumeration of named and de Bruijn terms over colliding names, compared with an independent scope-stack binder resolution",
+   text="Every named term up to a size bound over colliding name sets and every de Bruijn term with indices 0..depth+1 is pushed through the real conversions (Name<->DeBruijn<->NamedDeBruijn, CodeGenInterner) and compared with an independent binder resolution: same image for closed terms, an error exactly for terms with a free variable, identity on round trips, equal evaluation results.",
+   note="trusted: vcore::nterm::resolve (explicit scope stack); binder identity = unique for the converter and (text,unique) for CodeGenInterner as documented in the code"),
+ "C15": dict(engine="h_uplc", design_ref="DESIGN.md §4 C15",
+   technique="bounded exhaustive enumeration of programs/constants/strings through the real printer and parser; oracle: parse(print(p)) == p and print idempotence",
+   text="Every builtin, constants of every type nesting to depth 2, every Unicode scalar value as a string, all 2-character combinations of special characters, and every closed program up to a size bound over mixed leaves with identifier-alphabet names are printed by the real printer, parsed by the real parser and compared structurally (binders by de Bruijn image); printing the parse result must reproduce the text.",
+   note="Data compared by abstract value (text cannot express definite/indefinite arrays); Bls12_381MlResult excluded (no concrete syntax by specification)"),
 }
 
 NOT_YET = "check not built yet (work in progress; see DESIGN.md §9 for the build order)"
